@@ -365,7 +365,7 @@ func runC02(p *Program, r *Result) {
 			var core, rest []string
 			for _, a := range facts {
 				s := short(a.String())
-				isZero, isNonceTest := nonceZeroAtom(a)
+				isZero, isNonceTest := nonceZeroAtom(p, a)
 				switch {
 				case isNonceTest && !isZero:
 					core = append(core, "nonce")
@@ -375,6 +375,9 @@ func runC02(p *Program, r *Result) {
 					core = append(core, "short")
 				case strings.HasPrefix(s, "io.ReadFull(") && (strings.HasSuffix(s, ".1 != io.EOF") || strings.HasSuffix(s, ".1 != nil")):
 					// implied by err == io.ErrUnexpectedEOF
+				case strings.HasPrefix(s, "io.ReadFull(") && (strings.HasSuffix(s, ".0 >= invoke (cipher.AEAD).Overhead(Field(Recv.a))") || strings.HasSuffix(s, ".0 >= 16") ||
+					strings.HasSuffix(s, ".0 <= invoke (cipher.AEAD).Overhead(Field(Recv.a))") || strings.HasSuffix(s, ".0 <= 16")):
+					// implied by n == Overhead (an earlier refusal of a chunk shorter than the tag)
 				case s == "len(Field(Recv.unread)) == 0":
 				case a.Kind == "bool" && a.X != nil && a.X.Op == "Phi":
 					// the merged result of a spliced predicate: its meaning is carried by the threaded facts
